@@ -8,7 +8,8 @@
    lists): nothing is assumed of them here. *)
 From Coq Require Import List NArith Bool Arith Lia Ring.
 From PV Require Import Graph.OpFamily Graph.Tape Graph.Lazy Graph.Backward Graph.TapeLemmas
-  Graph.LazyProofs Graph.BackwardProofs Graph.HistoryProofs Graph.ADProof Graph.Totality.
+  Graph.LazyProofs Graph.BackwardProofs Graph.HistoryProofs Graph.FrameProofs Graph.MoreProofs Graph.Theorems
+  Graph.ADProof Graph.Totality.
 Import ListNotations.
 
 Section TotalityAD.
@@ -91,5 +92,47 @@ Section TotalityAD.
     eexists _, e'. split; [exact Hb|].
     exact (backward_adjoint rO rI radd rmul rsub ropp Rth F jvp size tan dp (g_ops g) e0 ps
              Hwf HLA Hshape Hcons Hsized Hnd Hcover g n sn v _ e' eq_refl Hclean Hpsz Hn Hv Hb).
+  Qed.
+
+  (* Graph::backward on a graph satisfying the invariant of reachable graphs (later, unevaluated
+     operators allowed): no readiness hypothesis, FamOK instead *)
+  Theorem backward_adjoint_total_inv (HF : FamOK F) (g : @gstate Op Sh vec) (e0 : env) (ps : list nat) :
+    ginv F (g_ops g) ->
+    (forall k oi, nth_error (g_ops g) k = Some oi -> f_inner F (o_op oi) = None -> LocalAdjoint rO radd rmul F jvp size (o_op oi)) ->
+    shape_ok F (g_ops g) -> consistent F jvp tan dp (g_ops g) e0 -> rsized F size tan (g_ops g) e0 -> NoDup ps ->
+    (forall k oi p, nth_error (g_ops g) k = Some oi -> f_inner F (o_op oi) = Some p -> In p ps) ->
+    forall n sn v, gclean (g_ops g) -> psz F size (g_ops g) e0 -> get_slot g n = Some sn -> s_val sn = Some v ->
+    exists g' e',
+      backward F VO g e0 n = Some (g', e') /\
+      ppot rO radd rmul dp ps e' = radd (ppot rO radd rmul dp ps e0) (dot rO radd rmul (vones VO (s_shape sn)) (tan n)) /\
+      gclean (g_ops g') /\ e_pval e' = e_pval e0.
+  Proof.
+    intros Hinv HLA Hshape Hcons Hsized Hnd Hcover n sn v Hclean Hpsz Hn Hv.
+    assert (Hs : get_slot g n <> None) by congruence.
+    destruct (backward_total F VO (proj1 HF) g e0 n Hinv Hclean Hs) as (g' & e' & Hb).
+    exists g', e'. split; [exact Hb|].
+    exact (backward_adjoint rO rI radd rmul rsub ropp Rth F jvp size tan dp (g_ops g) e0 ps
+             (proj1 Hinv) HLA Hshape Hcons Hsized Hnd Hcover g n sn v g' e' eq_refl Hclean Hpsz Hn Hv Hb).
+  Qed.
+
+  (* on a graph of ANY world reachable by a history: well-formedness, shape_ok and the absence of
+     node gradients are no longer hypotheses either - they hold on every reachable graph *)
+  Theorem backward_adjoint_reachable (HF : FamOK F) (e : env) (cs : list (@cmd Op Sh vec)) gi
+    (g : @gstate Op Sh vec) (e0 : env) (ps : list nat) :
+    nth_error (w_graphs (run_all F VO {| w_graphs := []; w_env := e |} cs)) gi = Some g ->
+    (forall k oi, nth_error (g_ops g) k = Some oi -> f_inner F (o_op oi) = None -> LocalAdjoint rO radd rmul F jvp size (o_op oi)) ->
+    consistent F jvp tan dp (g_ops g) e0 -> rsized F size tan (g_ops g) e0 -> NoDup ps ->
+    (forall k oi p, nth_error (g_ops g) k = Some oi -> f_inner F (o_op oi) = Some p -> In p ps) ->
+    forall n sn v, psz F size (g_ops g) e0 -> get_slot g n = Some sn -> s_val sn = Some v ->
+    exists g' e',
+      backward F VO g e0 n = Some (g', e') /\
+      ppot rO radd rmul dp ps e' = radd (ppot rO radd rmul dp ps e0) (dot rO radd rmul (vones VO (s_shape sn)) (tan n)) /\
+      gclean (g_ops g') /\ e_pval e' = e_pval e0.
+  Proof.
+    intros Eg HLA Hcons Hsized Hnd Hcover n sn v Hpsz Hn Hv.
+    destruct (T_reachable_invariant F VO HF e cs) as (Hw & Hsh).
+    unfold winv, wshape in *. rewrite Forall_forall in Hw, Hsh.
+    destruct (Hw g (nth_error_In _ _ Eg)) as (Hinv & Hclean & _). pose proof (Hsh g (nth_error_In _ _ Eg)) as Hshape.
+    exact (backward_adjoint_total_inv HF g e0 ps Hinv HLA Hshape Hcons Hsized Hnd Hcover n sn v Hclean Hpsz Hn Hv).
   Qed.
 End TotalityAD.
